@@ -161,20 +161,38 @@ func (e *Env) entryOld(name string, s Sort) *Term {
 	return Var("old$"+name, s)
 }
 
-func (e *Env) block(list []ast.Stmt) {
-	for _, s := range list {
+func (e *Env) block(list []ast.Stmt) { e.blockT(list, false) }
+
+// blockT lowers a statement list; tail says that the function ends right after it, in
+// which case the branches of a final if/switch end their paths separately (no merge).
+func (e *Env) blockT(list []ast.Stmt, tail bool) {
+	for i, s := range list {
 		e.forceClass = -1
 		e.anchored(s, true)
+		e.tail = tail && i == len(list)-1 && e.inline == 0 && e.postB == nil
 		e.stmt(s)
+		e.tail = false
 		e.forceClass = -1
 		e.anchored(s, false)
 	}
 }
 
+// endBranch finishes a branch body. When the function ends right after the enclosing
+// statement (tail) and this branch armed deferred calls of its own, its path ends here,
+// separately; otherwise control joins the other branches.
+func (e *Env) endBranch(tail bool, join *Block, armedBefore map[*deferSite]bool) {
+	if tail {
+		e.leave()
+		e.dead()
+		return
+	}
+	e.jump(join)
+}
+
 func (e *Env) stmt(s ast.Stmt) {
 	switch s := s.(type) {
 	case *ast.BlockStmt:
-		e.block(s.List)
+		e.blockT(s.List, e.tail)
 	case *ast.EmptyStmt:
 	case *ast.ExprStmt:
 		e.expr(s.X)
@@ -401,19 +419,28 @@ func (e *Env) ifStmt(s *ast.IfStmt) {
 	elseB := e.newBlock("else")
 	join := e.newBlock("endif")
 	head.Succ = append(head.Succ, thenB, elseB)
+	tail := e.tail
 	armed0 := e.cloneArmed()
 	e.cur = thenB
 	e.assume(c)
-	e.block(s.Body.List)
-	e.jump(join)
+	e.blockT(s.Body.List, tail)
+	thenDead := e.isDead()
+	e.endBranch(tail, join, armed0)
 	armed1 := e.mayArmed
+	if thenDead {
+		armed1 = map[*deferSite]bool{}
+	}
 	e.mayArmed = armed0
 	e.cur = elseB
 	e.assume(Not(c))
 	if s.Else != nil {
+		e.tail = tail
 		e.stmt(s.Else)
+		e.tail = false
+		e.endBranch(tail, join, armed0)
+	} else {
+		e.jump(join)
 	}
-	e.jump(join)
 	e.unionArmed(armed1)
 	e.cur = join
 }
@@ -674,6 +701,8 @@ func (e *Env) rangeStmt(s *ast.RangeStmt) {
 }
 
 func (e *Env) switchStmt(s *ast.SwitchStmt) {
+	tail := e.tail
+	e.tail = false
 	if s.Init != nil {
 		e.stmt(s.Init)
 	}
@@ -738,10 +767,11 @@ func (e *Env) switchStmt(s *ast.SwitchStmt) {
 		if i == 0 || !endsInFallthrough(clauses[i-1].(*ast.CaseClause)) {
 			e.mayArmed = cloneArmedMap(armed0)
 		}
-		e.block(cc.Body)
-		e.jump(after)
+		e.blockT(cc.Body, tail)
+		caseDead := e.isDead()
+		e.endBranch(tail, after, armed0)
 		for k, v := range e.mayArmed {
-			if v {
+			if v && !caseDead {
 				acc[k] = true
 			}
 		}
@@ -753,6 +783,8 @@ func (e *Env) switchStmt(s *ast.SwitchStmt) {
 }
 
 func (e *Env) typeSwitchStmt(s *ast.TypeSwitchStmt) {
+	tail := e.tail
+	e.tail = false
 	if s.Init != nil {
 		e.stmt(s.Init)
 	}
@@ -807,10 +839,11 @@ func (e *Env) typeSwitchStmt(s *ast.TypeSwitchStmt) {
 			}
 			e.writeVar(e.localName(obj), obj.Type(), bv)
 		}
-		e.block(cc.Body)
-		e.jump(after)
+		e.blockT(cc.Body, tail)
+		tcDead := e.isDead()
+		e.endBranch(tail, after, tsArmed0)
 		for k, v := range e.mayArmed {
-			if v {
+			if v && !tcDead {
 				tsAcc[k] = true
 			}
 		}
@@ -822,9 +855,11 @@ func (e *Env) typeSwitchStmt(s *ast.TypeSwitchStmt) {
 		if obj := e.info().Implicits[defaultClause]; obj != nil {
 			e.writeVar(e.localName(obj), obj.Type(), v)
 		}
-		e.block(defaultClause.Body)
+		e.blockT(defaultClause.Body, tail)
+		e.endBranch(tail, after, tsArmed0)
+	} else {
+		e.jump(after)
 	}
-	e.jump(after)
 	e.unionArmed(tsAcc)
 	e.popCtx()
 	e.cur = after
@@ -952,6 +987,8 @@ func cloneArmedMap(m map[*deferSite]bool) map[*deferSite]bool {
 }
 
 func (e *Env) cloneArmed() map[*deferSite]bool { return cloneArmedMap(e.mayArmed) }
+
+func (e *Env) isDead() bool { return strings.HasPrefix(e.cur.Note, "dead") && len(e.cur.Cmds) == 0 }
 
 func (e *Env) unionArmed(o map[*deferSite]bool) {
 	for k, v := range o {
